@@ -125,5 +125,11 @@ func (app *App) VerifEVMStorage(addr []byte, slot ethcmn.Hash) ethcmn.Hash {
 	return app.Context.stateDB.WithState(app.VerifViewState()).Copy().GetState(ethcmn.BytesToAddress(addr), slot)
 }
 
+// VerifResetCheckState gives the mempool connection a fresh check state with a fresh gas
+// calculator, as Commit does (the gas sweep starts every CheckTx trial from one).
+func (app *App) VerifResetCheckState() {
+	app.Context.check = storage.NewState(app.Context.chainstate).WithGas(app.getGasCalculator())
+}
+
 // VerifConsumedGas is the gas consumed so far on the deliver state's (block) gas calculator.
 func (app *App) VerifConsumedGas() int64 { return int64(app.Context.deliver.GetCalculator().GetConsumed()) }
